@@ -362,6 +362,12 @@ func wrap(r *core.Rand, base string, forceNullable bool) *m.Type {
 	case 3:
 		t.NonNull = true
 		t = &m.Type{Elem: &m.Type{Elem: t, NonNull: r.Bool()}}
+	case 4:
+		// three (sometimes four) list levels, each with its own nullability
+		t.NonNull = r.Bool()
+		for k, n := 0, 3+r.Intn(2)*r.Intn(2); k < n; k++ {
+			t = &m.Type{Elem: t, NonNull: k < n-1 && r.Bool()}
+		}
 	}
 	if !forceNullable && r.Chance(1, 3) {
 		t.NonNull = true
@@ -566,6 +572,9 @@ func GenValue(r *core.Rand, lookup func(string) *m.Item, t *m.Type, depth int, n
 		n := r.Intn(3)
 		if depth <= 0 {
 			n = 0
+		} else if t.Elem.Elem == nil && r.Chance(1, 80) {
+			// a long list (more items than anything that shortens lists for display would keep)
+			n = 129 + r.Intn(200)
 		}
 		for i := 0; i < n; i++ {
 			v.Items = append(v.Items, GenValue(r, lookup, t.Elem, depth-1, true))
